@@ -157,7 +157,7 @@ var specs = map[string]spec{
 	"wordpress/plugins": one("var/www/html/wp-content/plugins/p/p.php"),
 	"os/apk":            osFamily("lib/apk/db/installed", "testdata/single", false, 0),
 	"os/cos":            osFamily("etc/cos-package-info.json", "testdata/single.json", false, 0),
-	"os/dpkg": {ExtraSeeds: []string{"dpkg-status"}, Cands: []cand{
+	"os/dpkg": {ExtraSeeds: []string{"dpkg-status", "dpkg-status-min"}, Cands: []cand{
 		{Path: "var/lib/dpkg/status"}, {Path: "var/lib/dpkg/status.d/pkg"}, {Path: "usr/lib/opkg/status"},
 		{Path: "var/lib/dpkg/status", MutPath: "etc/os-release", Primary: "i:dpkg-status", Seeds: "osrelease"},
 		{Path: "var/lib/dpkg/status", MutPath: "usr/lib/os-release", Primary: "i:dpkg-status", Seeds: "osrelease", NoOSRelease: true},
@@ -201,6 +201,8 @@ func guessPaths(seedRels []string) []string {
 var inline = map[string]string{
 	"one-byte":    "x",
 	"dpkg-status": healthyDpkg,
+	// the same record with every variable-length field at its minimal length
+	"dpkg-status-min": "Package: a\nStatus: install ok installed\nSource: b (1)\nVersion: 2\nArchitecture: c\n\n",
 	// os-release(5): a typical file, and one whose values are all empty quoted strings
 	"osrelease-valid":        osRelease,
 	"osrelease-empty-values": "NAME=\"\"\nID=\"\"\nVERSION_ID=\"\"\n",
